@@ -133,6 +133,7 @@ func vf2NewStack(k int, maxrt int, timeout time.Duration) (*vf2Stack, error) {
 	s.g = forwarder.VerifNewGtp5g(mux, c1, c2, simk.FamilyID, 7, s.gtpu, s.bsnl, s.ps)
 	cfg := &factory.Config{Pfcp: &factory.Pfcp{Addr: upf, NodeID: upf, RetransTimeout: timeout, MaxRetrans: uint8(maxrt)}}
 	s.srv = NewPfcpServer(cfg, s.g)
+	s.srv.recoveryTime = vfT0.Add(-90 * 24 * time.Hour)
 	s.h = &vf2Handler{srv: s.srv, marker: make(chan struct{}, 16)}
 	// as pkg/app: driver.HandleReport(server) - with the forwarding handler in between
 	s.g.HandleReport(s.h)
@@ -329,7 +330,8 @@ type vf2Line struct {
 	E       vf2Event   `json:"e"`
 	Calls   []vfCall   `json:"calls"`
 	Gets    int        `json:"gets"`
-	MQ      [][]string `json:"mq"` // OIDs ("seid/urr") of every multi-URR query, batch by batch
+	MQ      [][]string `json:"mq"`  // OIDs ("seid/urr") of every multi-URR query, batch by batch
+	MQR     []vf2MqRep `json:"mqr"` // what the kernel answered to them
 	Out     []vfOut    `json:"out"`
 	Gpdu    []vf2Gpdu  `json:"gpdu"`
 	Snap    vfSnap     `json:"snap"`
@@ -379,6 +381,25 @@ func vf2Tickers() int {
 		}
 		time.Sleep(200 * time.Microsecond)
 	}
+}
+
+// vf2MqRep: one report of a multi-report query, as the kernel measured it
+type vf2MqRep struct {
+	SEID string `json:"seid"`
+	URR  int    `json:"urr"`
+	TV   string `json:"tv"`
+}
+
+func vf2MqReps(log []simk.Req) []vf2MqRep {
+	out := []vf2MqRep{}
+	for _, r := range log {
+		if r.Op == "mquery" {
+			for _, rp := range r.Reps {
+				out = append(out, vf2MqRep{SEID: strconv.FormatUint(rp.SEID, 10), URR: int(rp.URR), TV: vf2Vals(rp).TV})
+			}
+		}
+	}
+	return out
 }
 
 func vf2Calls(log []simk.Req) ([]vfCall, int, [][]string) {
@@ -517,7 +538,7 @@ func TestVerifL2(t *testing.T) {
 		r := &vfRun{srv: st.srv, twin: vfNewTwin(&x.tok)}
 		nw.drain()
 		st.k.TakeLog()
-		_ = enc.Encode(vf2Line{Tr: s.ID, I: 0, E: init, Calls: []vfCall{}, MQ: [][]string{}, Out: []vfOut{}, Gpdu: []vf2Gpdu{}, Queues: []vf2Q{}, KRules: []vf2KRule{},
+		_ = enc.Encode(vf2Line{Tr: s.ID, I: 0, E: init, Calls: []vfCall{}, MQ: [][]string{}, MQR: []vf2MqRep{}, Out: []vfOut{}, Gpdu: []vf2Gpdu{}, Queues: []vf2Q{}, KRules: []vf2KRule{},
 			Snap: vfSnap{Rx: []vfRx{}, Tx: []vfTx{}, Free: []string{}, Live: []string{}, Nodes: []string{}}, Tickers: vf2Tickers() - 1, Pkts: []string{}})
 		dead := false
 		for i := 1; i < len(s.Events) && !dead; i++ {
@@ -663,7 +684,9 @@ func TestVerifL2(t *testing.T) {
 				}
 			}
 			ln.Snap = snap
-			ln.Calls, ln.Gets, ln.MQ = vf2Calls(st.k.TakeLog())
+			klog := st.k.TakeLog()
+			ln.Calls, ln.Gets, ln.MQ = vf2Calls(klog)
+			ln.MQR = vf2MqReps(klog)
 			ln.KRules = vf2KRules(st.k)
 			ln.Out = []vfOut{}
 			for _, d := range append(early, nw.drain()...) {
@@ -695,7 +718,7 @@ func TestVerifL2(t *testing.T) {
 		// closing line: what is left after Stop (timer goroutines must be gone, everything must have terminated)
 		serr := st.stop(10 * time.Second)
 		if !dead {
-			fin := vf2Line{Tr: s.ID, I: len(s.Events), Calls: []vfCall{}, MQ: [][]string{}, Out: []vfOut{}, Gpdu: []vf2Gpdu{}, Queues: []vf2Q{}, KRules: []vf2KRule{},
+			fin := vf2Line{Tr: s.ID, I: len(s.Events), Calls: []vfCall{}, MQ: [][]string{}, MQR: []vf2MqRep{}, Out: []vfOut{}, Gpdu: []vf2Gpdu{}, Queues: []vf2Q{}, KRules: []vf2KRule{},
 				Snap: vfSnap{Rx: []vfRx{}, Tx: []vfTx{}, Free: []string{}, Live: []string{}, Nodes: []string{}}, Pkts: []string{}, Tickers: vf2Tickers()}
 			fin.E = init
 			fin.E.T = "stop"
